@@ -23,7 +23,8 @@ RULE = ('1-5 tasks (PickleCache and a custom two-file BaseCache format, dependen
         'generated result-shape grammar (nested dict/list/tuple/set, bytes, ints > 2^64, floats, text, blobs of 70-300 KB that span '
         'several pickle frames) and embeds the task name and dependency digests, so all stored values are distinct. Engine '
         '"rerun": first run with backend b1, second run with backend b2 (b1,b2 in {serial, fork, spawn}) in the same Lab, a new '
-        'Lab, or a FRESH INTERPRETER started with a different PYTHONHASHSEED. Oracle: after run 1 is_cached(t) for every task and '
+        'Lab, or a FRESH INTERPRETER started with a different PYTHONHASHSEED; in some cases the Lab is given a relative storage path and '
+        'the caller changes its working directory between the runs. Oracle: after run 1 is_cached(t) for every task and '
         'the set of key directories == {cache_key(t)}; run 2 returns values equal to run 1\'s with zero run() records, and every '
         'requested instance\'s result_meta == run 1\'s (start, duration). Engine "roundtrip": Cache.save / load_result_with_meta '
         'directly with generated ResultMeta (naive datetimes at microsecond resolution, durations 0..10 days). Non-trivial = >= 2 '
@@ -33,6 +34,7 @@ ASSUMPTIONS = ['values are compared with ==; stored values are distinct by const
 
 def check_rerun(spec: dict) -> core.CaseResult:
     findings: list[core.Finding] = []
+    cwd0 = os.getcwd()
     d = tempfile.mkdtemp(prefix='c06-', dir=os.environ.get('VERIF_SCRATCH'))
     obs1 = os.path.join(d, 'obs1')
     obs2 = os.path.join(d, 'obs2')
@@ -45,7 +47,13 @@ def check_rerun(spec: dict) -> core.CaseResult:
         tasks = resultcase.build_tasks(spec)
         requested = [tasks[i] for i in spec['requested']]
         os.environ['VERIF_OBS_DIR'] = obs1
-        lab1 = labtech.Lab(storage=store, runner_backend=spec['b1'], notebook=False, max_workers=2)
+        cwd0 = os.getcwd()
+        relative = bool(spec.get('relative_storage')) and spec['second'] != 'fresh_interpreter'
+        if relative:
+            # the Lab is given a RELATIVE storage path; the caller changes its working directory between the two runs
+            os.chdir(d)
+            os.makedirs(os.path.join(d, 'elsewhere'), exist_ok=True)
+        lab1 = labtech.Lab(storage='store' if relative else store, runner_backend=spec['b1'], notebook=False, max_workers=2)
         try:
             res1 = lab1.run_tasks(requested, disable_progress=True, disable_top=True)
         except Exception as ex:
@@ -103,9 +111,11 @@ def check_rerun(spec: dict) -> core.CaseResult:
                     findings.append(core.Finding('C06:cache_key-differs-in-a-fresh-process', ''))
         else:
             os.environ['VERIF_OBS_DIR'] = obs2
+            if relative:
+                os.chdir(os.path.join(d, 'elsewhere'))
             tasks2 = resultcase.build_tasks(spec) if mode == 'new_lab' else tasks
             req2 = [tasks2[i] for i in spec['requested']]
-            lab2 = labtech.Lab(storage=store, runner_backend=spec['b2'], notebook=False, max_workers=2) if mode == 'new_lab' else lab1
+            lab2 = labtech.Lab(storage=lab1._storage if relative else store, runner_backend=spec['b2'], notebook=False, max_workers=2) if mode == 'new_lab' else lab1
             if mode == 'same_lab' and spec['b2'] != spec['b1']:
                 lab2 = labtech.Lab(storage=lab1._storage, runner_backend=spec['b2'], notebook=False, max_workers=2)
             try:
@@ -133,6 +143,10 @@ def check_rerun(spec: dict) -> core.CaseResult:
             findings.append(core.Finding('C06:cached-task-executed-again', f'{s2}'))
         summary = {'first': sorted(t.name for t in ran), 'second_mode': mode, 'b1': spec['b1'], 'b2': spec['b2']}
     finally:
+        try:
+            os.chdir(cwd0)
+        except Exception:
+            pass
         if old is None:
             os.environ.pop('VERIF_OBS_DIR', None)
         else:
@@ -180,6 +194,73 @@ def check_roundtrip(spec: dict) -> core.CaseResult:
     return core.CaseResult(findings=findings, nontrivial=len(spec['nodes']) >= 2, labels=('roundtrip',), summary={'n': len(spec['nodes'])})
 
 
+def check_main_script(case: dict) -> core.CaseResult:
+    """Task types defined in __main__ of a user script (pbt/mainscript.py run as a script): first run with b1, second with b2."""
+    findings = []
+    d = tempfile.mkdtemp(prefix='c06m-', dir=os.environ.get('VERIF_SCRATCH'))
+    try:
+        obs = os.path.join(d, 'obs')
+        os.makedirs(obs)
+        full = {**case, 'storage': os.path.join(d, 'store')}
+        with open(os.path.join(d, 'case.json'), 'w') as f:
+            json.dump(full, f)
+        env = dict(os.environ)
+        env['VERIF_OBS_DIR'] = obs
+        env['PYTHONHASHSEED'] = str(case.get('hashseed', 0))
+        script = os.path.join(os.path.dirname(os.path.dirname(os.path.abspath(__file__))), 'mainscript.py')
+        with open(os.path.join(d, 'log'), 'wb') as log:
+            p = subprocess.Popen([sys.executable, script, os.path.join(d, 'case.json'), os.path.join(d, 'out.json')], env=env, stdout=log, stderr=log,
+                                 stdin=subprocess.DEVNULL, start_new_session=True)
+            try:
+                p.wait(timeout=180)
+            finally:
+                try:
+                    os.killpg(p.pid, 9)
+                except OSError:
+                    pass
+        if not os.path.exists(os.path.join(d, 'out.json')):
+            return core.CaseResult(inconclusive=True, summary={'log': open(os.path.join(d, 'log'), 'rb').read()[-500:].decode('utf-8', 'replace')})
+        o = json.load(open(os.path.join(d, 'out.json')))
+    finally:
+        shutil.rmtree(d, ignore_errors=True)
+    if 'error' in o:
+        findings.append(core.Finding('C06:main-script:run-raised', o['error']))
+    else:
+        keys = o['keys_in_parent']
+        for ln in o['worker_lines']:
+            _, name, pid, mod, key = ln.split(' ')
+            if keys.get(name) != key:
+                findings.append(core.Finding('C06:main-script:cache_key-in-worker-differs-from-the-callers', f'{name}: worker({mod}) {key} vs caller {keys.get(name)}'))
+        not_cached = [n for n, c in o['is_cached'].items() if not c]
+        if not_cached:
+            findings.append(core.Finding('C06:main-script:executed-task-not-reported-cached', str(not_cached)))
+        if sorted(o['storage_keys']) != sorted(set(keys.values())):
+            findings.append(core.Finding('C06:main-script:key-directories-differ-from-the-executed-tasks-keys', f'{o["storage_keys"]} vs {sorted(set(keys.values()))}'))
+        if o['runs_in_second']:
+            findings.append(core.Finding('C06:main-script:cached-task-executed-again', str(o['runs_in_second'][:3])))
+        if o['values2'] != o['values1']:
+            findings.append(core.Finding('C06:main-script:loaded-values-differ', f'{o["values2"]} vs {o["values1"]}'))
+        if 'cached_tasks_error' in o:
+            findings.append(core.Finding('C06:main-script:cached_tasks-raised', o['cached_tasks_error']))
+        else:
+            want = sorted(f'{"Leaf" if n.startswith("l") else "Parent"}:{n}:{k}' for n, k in keys.items())
+            if o['cached_tasks'] != want or not o['cached_tasks_equal']:
+                findings.append(core.Finding('C06:main-script:cached_tasks-differs', f'{o["cached_tasks"]} vs {want}'))
+    seen = set()
+    findings = [f for f in findings if not (f.signature in seen or seen.add(f.signature))]
+    return core.CaseResult(findings=findings, nontrivial=True, labels=(f'main-script:b1={case["b1"]}', f'main-script:b2={case["b2"]}'),
+                           summary={k: o.get(k) for k in ('is_cached', 'runs_in_second', 'error')})
+
+
+def main_script_case():
+    opts = st.one_of(st.none(), st.dictionaries(st.sampled_from(['z', 'a', 'm']), st.integers(0, 3), max_size=3), st.lists(st.integers(0, 3), max_size=2))
+    return st.builds(lambda leaves, parents, b1, b2, hs: {'leaves': leaves, 'parents': parents, 'b1': b1, 'b2': b2, 'hashseed': hs},
+                     st.lists(st.tuples(st.integers(0, 5), opts).map(list), min_size=1, max_size=3, unique_by=lambda t: json.dumps(t, sort_keys=True)),
+                     st.lists(st.tuples(st.integers(0, 2), st.sampled_from([0.5, 1.0, 2.0, 3.5]), st.booleans()).map(list), min_size=1, max_size=3,
+                              unique_by=lambda t: json.dumps(t)),
+                     st.sampled_from(['spawn', 'spawn', 'fork', 'serial']), st.sampled_from(['serial', 'fork', 'spawn']), st.integers(0, 50))
+
+
 def meta_strategy():
     return st.builds(lambda dt, days, secs, us: {'start': [dt.year, dt.month, dt.day, dt.hour, dt.minute, dt.second, dt.microsecond],
                                                  'dur': [days, secs, us]},
@@ -195,7 +276,7 @@ def rerun_spec(draw, backends, fresh_rate: int):
     requested = list(dict.fromkeys(requested))
     second = 'fresh_interpreter' if draw(st.integers(0, 99)) < fresh_rate else draw(st.sampled_from(['same_lab', 'new_lab']))
     return {'nodes': nodes, 'requested': requested, 'b1': draw(st.sampled_from(backends)), 'b2': draw(st.sampled_from(backends)),
-            'second': second, 'hashseed2': draw(st.integers(1, 4000))}
+            'second': second, 'hashseed2': draw(st.integers(1, 4000)), 'relative_storage': draw(st.integers(0, 4)) == 0}
 
 
 def plan(tier: str) -> list[dict]:
@@ -203,11 +284,15 @@ def plan(tier: str) -> list[dict]:
     jobs = [{'engine': 'rerun', 'backends': ['serial'], 'fresh': 0, 'n': 60 if q else 2500, 'hashseed': i} for i in range(4)]
     jobs += [{'engine': 'rerun', 'backends': ['serial', 'fork'], 'fresh': 25, 'n': 16 if q else 500, 'hashseed': 4 + i} for i in range(5)]
     jobs += [{'engine': 'rerun', 'backends': ['serial', 'fork', 'spawn'], 'fresh': 30, 'n': 6 if q else 120, 'hashseed': i} for i in range(3)]
-    jobs += [{'engine': 'roundtrip', 'n': 150 if q else 5000, 'hashseed': i} for i in range(4)]
+    jobs += [{'engine': 'roundtrip', 'n': 150 if q else 5000, 'hashseed': i} for i in range(3)]
+    jobs += [{'engine': 'main-script', 'n': 4 if q else 80, 'hashseed': i} for i in range(2)]
     return jobs
 
 
 def run_job(rec: core.Recorder, job: dict, seed: int) -> None:
+    if job['engine'] == 'main-script':
+        core.run_hypothesis(rec, 'main-script', main_script_case(), check_main_script, max_examples=job['n'], seed=seed, shrink=False)
+        return
     if job['engine'] == 'roundtrip':
         strat = st.builds(lambda nodes, metas: {'nodes': nodes, 'metas': metas}, resultcase.node_sets(max_big=80_000),
                           st.lists(meta_strategy(), min_size=1, max_size=3))
@@ -220,4 +305,6 @@ def run_job(rec: core.Recorder, job: dict, seed: int) -> None:
 
 def replay(record: dict) -> core.CaseResult:
     case = record['case']
+    if 'leaves' in case:
+        return check_main_script(case)
     return check_roundtrip(case) if 'metas' in case else check_rerun(case)
